@@ -755,7 +755,19 @@ func (env *SpecEnv) call(x *CallE) *Val {
 			if err != nil {
 				env.fail("%v", err)
 			}
-			return &Val{T: "(if-val " + vc.term(env.eval(x.Args[0])) + ")", Typ: t}
+			raw := "(if-val " + vc.term(env.eval(x.Args[0])) + ")"
+			switch srt := vc.sortOf(t); srt {
+			case "Int":
+				return &Val{T: raw, Typ: t}
+			case "Bool":
+				return &Val{T: eq(raw, "1"), Typ: t}
+			default:
+				unbox := "unbox_" + mangle(srt)
+				box := "box_" + mangle(srt)
+				vc.S.DeclareRaw("fn:"+box, fmt.Sprintf("(declare-fun %s (%s) Int)", box, srt))
+				vc.S.DeclareRaw("fn:"+unbox, fmt.Sprintf("(declare-fun %s (Int) %s)", unbox, srt))
+				return &Val{T: "(" + unbox + " " + raw + ")", Typ: t}
+			}
 		}
 		argn(1)
 		return intVal("(if-val " + vc.term(env.eval(x.Args[0])) + ")")
